@@ -95,6 +95,30 @@ def regression():
     ]
 
 
+UNI_IDENTS = ["ÉlanVital", "ÜberMensch", "Ωmega", "élanVital2", "straßeName", "Naïve_Bayes", "ДобрыйДень", "日本語", "Ǆungla", "İstanbul",
+              "ΟΔΟΣ", "ßeta", "Öl2", "Café3", "HTTPÉcole", "ÀB_ÇD", "r#Éclair"]
+
+
+def nonascii():
+    """NON-ASCII identifiers under every style (and none): the expected name comes from the Rust reference on heck (G.resolve_names);
+    the theorems are about ASCII identifiers, so this family is a Rust-vs-Rust differential carried through the model as a spelling"""
+    items = []
+    for si, st in enumerate([None] + G.STYLES):
+        vs = []
+        for i, ident in enumerate(UNI_IDENTS):
+            kind = ["unit", "tuple", "named"][(i + si) % 3]
+            v = Variant(ident, kind)
+            if kind == "tuple":
+                v.fields = [Field("u8")]
+            elif kind == "named":
+                v.fields = [Field("String", "s")]
+            if (i + si) % 5 == 0:
+                v.metas = [aci(True, explicit=False)]
+            vs.append(v)
+        items.append(Item("E", vs, metas=[EM("sall", st)] if st else []))
+    return items
+
+
 def crate_configs(tier):
     return [{"name": ID.lower()}, {"name": ID.lower() + "probe", "kind": "genprobe"}]
 
@@ -109,7 +133,7 @@ probe_command = S.struct_probe_command
 def build_corpus(tier, rng):
     c = Corpus(ID)
     thorough = tier == "thorough"
-    cands = [("regression", it) for it in regression()] + [("systematic", it) for it in systematic(rng)]
+    cands = [("regression", it) for it in regression()] + [("systematic", it) for it in systematic(rng)] + [("non-ascii-ident", it) for it in nonascii()]
     for _ in range(1400 if thorough else 110):
         cands.append(("random", G.string_enum(rng)))
     infos = G.classify(ID, [it for _, it in cands])
